@@ -26,6 +26,18 @@ CLAIMS = {
              "the dictionary-based Choi loops, truncation - all numerical. Trusted: the naming convention as the tag oracle.",
         technique=TECH + "definedness/arity checking over a resolved call graph, naming-convention type tags, matrix-product normal "
                          "form (conj/transpose algebra), table-direction agreement, slot (function-pointer) conformance"),
+    "C03": dict(
+        text="Decides, exactly and for every index, dimension and outcome count: (I1) the four variable-index <-> object-index map "
+             "pairs are mutual inverses under both flags (symbolic evaluation of their divmod arithmetic, both compositions, all "
+             "branches); (I2) each gradient one-hot is stored at the index the forward map returns; (I3) num_variables of the four "
+             "tomography classes equals the variable index of the last free entry + 1; (I4) SetQOperations uses one kind order in all "
+             "five places; (I5) implied constants and positions agree at 25 sites (d^-1/2, d^1/2 e0, d^1/2/m, e0, e0 - sum of first "
+             "rows at block m-1; delete/insert positions match); (I6) slot conformance; (I7) re-creating methods carry every stored "
+             "constructor field.",
+        note="Not decided: value-level round trips of the array conversions (reshape/stack numerics). Known finding F9: "
+             "generate_from_var resets mode_proj_order / eps_truncate_imaginary_part / eps_zero.",
+        technique=TECH + "exact symbolic interpretation of integer index code over polynomial normal forms, def-use matching, "
+                         "ordered table agreement, scalar d-exponent normal form, slot conformance, field-completeness"),
 }
 
 NOT_APPLICABLE = {
